@@ -5,6 +5,7 @@
 mod k_conv;
 mod k_dev;
 mod k_errtab;
+mod k_fmt;
 mod k_lex;
 mod k_mm;
 mod k_queue;
@@ -25,6 +26,7 @@ fn dispatch(kind: &str, args: &[&str]) -> String {
         "mm" => k_mm::run(args),
         "lex" => k_lex::run(args),
         "conv" => k_conv::run(args),
+        "fmt" => k_fmt::run(args),
         "tree" => k_tree::run(args),
         _ => format!("UNKNOWN-KIND {}", kind),
     }
